@@ -617,8 +617,11 @@ func judgeC10(hi *Hist) []*Violation {
 				}
 				return outS
 			},
-			Equal:             func(a, b interface{}) bool { return a.(linState) == b.(linState) },
-			DescribeOperation: func(in, outp interface{}) string { op := in.(h.Op); return fmt.Sprintf("%s(%d,%v)->%d", h.OpNames[op.K], op.N, op.Flag, outp.(int64)) },
+			Equal: func(a, b interface{}) bool { return a.(linState) == b.(linState) },
+			DescribeOperation: func(in, outp interface{}) string {
+				op := in.(h.Op)
+				return fmt.Sprintf("%s(%d,%v)->%d", h.OpNames[op.K], op.N, op.Flag, outp.(int64))
+			},
 		}
 		model := nm.ToModel()
 		note("c10_histories_checked")
